@@ -181,6 +181,36 @@ def _annotated_ops(l0: int, l1: int, l2: int, m0: int, m1: int, m2: int, shape: 
     return [sorted(x) for x in a] == s1.s
 
 
+def _annotated_immutable(l0: int, shape: int, via: int, idx: int) -> bool:
+    """
+    pre: 0 <= l0 <= 2
+    pre: 0 <= shape <= 2 and 0 <= via <= 4 and 0 <= idx <= 2
+    post: _
+    """
+    a = _shape(shape, (l0, 1, 0))
+    s1 = AnnotatedState([list(x) for x in a])
+    twin = AnnotatedState([list(x) for x in a])
+    h, text, n = hash(s1), str(s1), s1.n_photons
+    i = idx % len(a)
+    # every way the API hands out label lists: editing what is returned must not reach the state
+    if via == 0:
+        s1[i].append(7)
+    elif via == 1:
+        for mode in s1:
+            mode.append(7)
+    elif via == 2:
+        s1.s[i].append(7)
+    elif via == 3:
+        s1[0:len(a)][i].append(7)
+        sl = s1[0:len(a)]
+        if not isinstance(sl, AnnotatedState):
+            return False
+    else:
+        (s1 + twin)[i].append(7)
+        s1.merge(twin)[i].append(7)
+    return s1 == twin and hash(s1) == h and str(s1) == text and s1.n_photons == n and [sorted(x) for x in s1.s] == [sorted(x) for x in a]
+
+
 def _herald_roundtrip(state: list[int], hk: list[int], hv: list[int], order: bool) -> bool:
     """
     pre: len(state) <= 3 and all(0 <= x <= 3 for x in state)
